@@ -18,7 +18,7 @@ RULE = ("(1) cross-process metamorphic: generated scenarios (class with several 
         "activity {none, other objects randomised, draws from the global random module, allocation churn} and diagnostics "
         "{off, debug=1, solve_fail_debug=1, srcinfo=True, VSC_CAPTURE_SRCINFO=1}; all value traces must be identical.  "
         "(2) snapshot histories in-process: randomize, failing calls, snap=get_randstate(), set_randstate(snap), one RandState seeding "
-        "several objects, mutating a state object after handing it over; restoring a snapshot must replay exactly the "
+        "several objects, mutating a state object after handing it over, an object that never gets an explicit state (snapshot taken before its first call); restoring a snapshot must replay exactly the "
         "values that followed it and snapshots must be independent copies.  non-trivial = scenario with >=2 rand sets, an "
         "ordering directive or dist and >=5 calls compared under >=6 variants / a history with a restore after >=2 draws; "
         "distinct = distinct canonical scenario")
@@ -216,7 +216,14 @@ def snap_cases(d):
             ops.append(["share", d.seed()])
         else:
             ops.append(["mutate_after_handover", d.randint(0, 1), d.seed()])
-    return {"kind": "snap", "seed": d.seed(), "ops": ops}
+    case = {"kind": "snap", "seed": d.seed(), "ops": ops}
+    if d.chance(35):
+        # the second object never gets an explicit state: it runs on the default state derived from Python's global random
+        # seed, whenever that happens first (a randomize call or a get_randstate() before any call)
+        case["default1"] = True
+        if d.chance(60):
+            ops.insert(d.randint(0, 2), ["snap", 1])
+    return case
 
 
 SNAP_SRC = '''
@@ -250,7 +257,11 @@ def run_snap(case):
     ns = {"vsc": vsc, "enum": _enum}
     exec(compile(SNAP_SRC, "<pvs-c09-snap>", "exec"), ns)
     objs = [ns["T"](), ns["T"]()]
+    import random as _random_mod
+    _random_mod.seed(case["seed"])
     for i, o in enumerate(objs):
+        if i == 1 and case.get("default1"):
+            continue
         o.set_randstate(mk_randstate(case["seed"] + i))
     snaps = []          # (object index, snapshot, values that followed so far)
     info = {"restores_after_draws": 0}
@@ -386,6 +397,8 @@ def run_shard(spec, seed, tier, acc):
             vios, info = run_snap(case)
             acc.case(case, info.get("restores_after_draws", 0) > 0, sample=cjson(case))
             acc.label("snapshot history")
+            if case.get("default1"):
+                acc.label("snapshot history: object on the default (global-seed) state")
             return vios
         hyp.drive(snap_cases(), body, seed, spec["n"], acc)
         return
